@@ -318,6 +318,15 @@ def run_verify_add(ctx, n):
                                               "transferred": res, "failed": errs})
         if not corrupt:
             ctx.oracle(oid in snap, case, {"why": "an intact object was not added", "store": snap, "result": res, "failed": errs})
+        if route == "add" and not pre and kind == "ok":
+            # correspondence with Store.add (effVerify + addVerify) on an empty store without hash-state rows
+            req = {"op": "store_add", "local": local, "store_verify": True, "oid": oid, "data": (bad if corrupt else good).hex()}
+            if varg != "omitted":
+                req["verify_arg"] = None if varg == "none" else True
+            ans = ctx.driver.ask(req)
+            ctx.corr("Store.add~HashFileDB.add(verify=...) into a verifying store", case,
+                     {"store": {o: [v[0], bool(v[1]) and local] for o, v in snap.items()}, "reported_failed": bool(errs)},
+                     {"store": {o: [d, bool(pr)] for o, d, pr in ans.get("store", [])}, "reported_failed": ans.get("verdict") == "corrupt"})
 
 
 def run_failed_add(ctx, n):
